@@ -175,7 +175,7 @@ fn maint(vm: &Vm, acct: &Pubkey) -> Option<Health> {
 fn check_success(w: &World, pre: &Vm, pre_acc: &Vm, post: &Vm, liquidatee: &Pubkey, liquidator: &Pubkey, ab: usize, lb: usize, q: u64, stats: &mut Stats) -> Result<(), (String, String)> {
     let akey = w.banks[ab].key;
     let lkey = w.banks[lb].key;
-    // (1) was unhealthy beforehand (stored and accrued readings must both say "healthy" to alarm)
+    // (1) was unhealthy beforehand (judged with the two transacted banks accrued to now, as the handler sees them)
     let h_pre_s = maint(pre, liquidatee).ok_or(("engine".to_string(), "no account".to_string()))?;
     let h_pre_a = maint(pre_acc, liquidatee).unwrap();
     let (Some(hs), Some(ha)) = (h_pre_s.health(), h_pre_a.health()) else {
@@ -183,8 +183,15 @@ fn check_success(w: &World, pre: &Vm, pre_acc: &Vm, post: &Vm, liquidatee: &Pubk
     };
     stats.max_width = stats.max_width.max(q_f64(&ha.width()));
     stats.pre_health_sign = if ha.hi.is_negative() { -1 } else if ha.lo.is_positive() { 1 } else { 0 };
-    if (&hs.lo - &h_pre_s.ignored).is_positive() && (&ha.lo - &h_pre_a.ignored).is_positive() {
-        return Err(("liq:healthy-account-liquidated".into(), format!("liquidation succeeded although maintenance health was at least {} (stored) / {} (accrued)", q_str(&hs.lo), q_str(&ha.lo))));
+    // The reading that counts is the one with the two banks the liquidation transacts in brought up to date (C06: a
+    // liquidation first accrues them, "so nobody can transact against stale share values"; the handler does exactly
+    // that before it looks at the health, and `pre_acc` accrues the same two banks and no other). The stored reading is
+    // reported for information only: an account that is unhealthy only on stale share values is NOT unhealthy.
+    if (&ha.lo - &h_pre_a.ignored).is_positive() {
+        return Err((
+            "liq:healthy-account-liquidated".into(),
+            format!("liquidation succeeded although maintenance health, with both banks' interest brought up to date, was at least {} (on the stored share values: at least {})", q_str(&ha.lo), q_str(&hs.lo)),
+        ));
     }
     // (2) afterwards not positive, (3) not worse
     let h_post = maint(post, liquidatee).unwrap();
